@@ -12,7 +12,7 @@ from fractions import Fraction
 from pysmt.typing import BOOL, INT, BVType, Type
 from pysmt.logics import QF_UFLIA, QF_AUFBVLIRA
 from pysmt.smtlib.solver import SmtLibSolver
-from pysmt.exceptions import SolverReturnedUnknownResultError
+from pysmt.exceptions import SolverReturnedUnknownResultError, UnknownSolverAnswerError
 
 from native import refeval
 
@@ -124,6 +124,16 @@ def run_sequence(env, rng, idx, length, logdir):
         except Exception:
             pass
         return d
+    # one sequence in three talks to a solver that answers `unsupported` to the declaration of one symbol: the failing
+    # calls must leave no trace (every later call behaves as if they had not been made)
+    rejected = rng.choice(["j", "v", "b", "i", None, None, None, None, None, None, None, None])
+    os.environ["STRICT_SOLVER_REJECT"] = rejected or ""
+
+    retry = None
+
+    def hits_rejected(f):
+        # (the wrapper sends the simplified formula: only its symbols are declared)
+        return rejected is not None and any(x.symbol_name() == rejected for x in refeval.free_symbols(f.simplify()))
     try:
         s = SmtLibSolver([sys.executable, os.path.join(HERE, "strict_solver.py")], env, QF_AUFBVLIRA)
     except Exception as e:
@@ -142,7 +152,20 @@ def run_sequence(env, rng, idx, length, logdir):
             try:
                 if o == "add":
                     f = U.atom()
+                    if retry is not None and rng.random() < 0.5:
+                        f = retry          # the same request again: must fail the same way
                     trace.append("add_assertion(%s)" % f.serialize())
+                    if hits_rejected(f):
+                        try:
+                            s.add_assertion(f)
+                            return bad("rejected-declaration-not-reported", call=trace[-1])
+                        except UnknownSolverAnswerError as e:
+                            if "unsupported" not in str(e):
+                                return bad("failed-call-left-a-trace", call=trace[-1], error=str(e)[:300])
+                        last_sat = None
+                        trace[-1] += " -> rejected"
+                        retry = f
+                        continue
                     s.add_assertion(f)
                     stack[-1].append(f)
                     last_sat = None
@@ -177,6 +200,16 @@ def run_sequence(env, rng, idx, length, logdir):
                     trace.append("%s(%s)" % (o, f.serialize()))
                     if any(x.symbol_type().is_custom_type() for x in refeval.free_symbols(f)):
                         custom_declared = True       # (conservative: the declaration is scoped to the query's level)
+                    if hits_rejected(f):
+                        try:
+                            getattr(s, o)(f)
+                            return bad("rejected-declaration-not-reported", call=trace[-1])
+                        except UnknownSolverAnswerError as e:
+                            if "unsupported" not in str(e):
+                                return bad("failed-call-left-a-trace", call=trace[-1], error=str(e)[:300])
+                        last_sat = None
+                        trace[-1] += " -> rejected"
+                        continue
                     r = getattr(s, o)(f)
                     if o == "is_sat":
                         want = is_sat(live() + [f])
@@ -263,7 +296,7 @@ def solver_check(tier, seed):
                 break
     return {"name": "smtlib_solver", "bounded": True, "evaluations": n, "distinct_nontrivial": n,
             "rule": "%d random sequences of 4-12 API calls (add_assertion, push 1-2, pop 1-2, solve, get_value, get_model, "
-                    "reset_assertions, is_sat / is_valid / is_unsat) on the real SmtLibSolver connected by real pipes to a strict "
+                    "reset_assertions, is_sat / is_valid / is_unsat; in a third of the sequences the solver answers `unsupported` to the declaration of one symbol and the failing calls must leave no trace) on the real SmtLibSolver connected by real pipes to a strict "
                     "reference solver process that rejects every illegal command; formulas over Bool, Int in [-3,4], BV2, an "
                     "uninterpreted sort and two instances of a parametric sort, one symbol needing quotes; verdicts and models "
                     "checked against an own enumeration" % trials,
